@@ -1,22 +1,29 @@
 package rules
 
 import (
+	"go/types"
+	"strings"
+
+	"golang.org/x/tools/go/ssa"
+
 	"hrverif/internal/core"
 )
 
 func init() {
 	register(&Property{
 		ID:    "C01",
-		Rules: []string{"C01-R1", "C01-R2", "C01-R3", "C01-R4", "C01-R5", "C01-R6", "C11-R2", "C11-R3", "C11-R5", "C04-R1", "C04-R2"},
+		Rules: []string{"C01-R1", "C01-R2", "C01-R3", "C01-R4", "C01-R5", "C01-R6", "C11-R2", "C11-R3", "C11-R5", "C04-R1", "C04-R2", "C01-R7", "C11-R8"},
 		Explain: "Decides the construction discipline of a resolved ingredient list for every recursive resolver of package resolver: " +
 			"C01-R1 the list stored into a recipe is the value last sorted; C01-R2 the sort order is element name ascending; " +
 			"C01-R3 a recipe's elements are merged only after that recipe was expanded in the same iteration; " +
 			"C01-R4 Elements.SumMerge accumulates by name (existing name: one += of value x multiplier on the slot Index returned; new name: one Add; nothing else written, in particular no aliasing store of the argument list); " +
 			"C01-R5 the list under construction grows only through that merge, with the ingredient's own quantity as coefficient and {name, quantity} x 1 for undefined names; " +
 			"C01-R6 Elements.Add appends exactly {name,val} and Elements.Index reports found only for an equal name; " +
-			"C11-R3/R5 (shared with C11) the depth limit in force is the one configured: stored from --maxdepth only when set or nothing configured, handed to the walk untransformed; C04-R1/R2 (shared with C04) every heading of the book is delivered exactly once, including an empty recipe at the end of the file.",
+			"C11-R3/R5 (shared with C11) the depth limit in force is the one configured: stored from --maxdepth only when set or nothing configured, handed to the walk untransformed; C04-R1/R2 (shared with C04) every heading of the book is delivered exactly once, including an empty recipe at the end of the file. Also: C01-R3 requires the merged list of an ingredient's recipe to be read after that recipe was expanded. C01-R7 every record the book-loading callback is handed without an error is stored in the book; C11-R8 a command's configuration takes its resolver section from the loaded options.",
 		NotDecided: "that the numbers equal the sum over paths of the products (floating point), idempotence of resolving twice, DAG shape, order-independence of the values",
 		Run: func(c *core.Ctx) {
+			ruleConfigLiterals(c, "C11-R8", func(t types.Type) bool { return strings.HasSuffix(t.String(), "resolver.Config") })
+			ruleBookLoaderKeepsAll(c, "C01-R7")
 			rs := recursiveResolvers(c.P)
 			for _, r := range rs {
 				c.Universe("recursive resolvers", core.FuncName(r)+" ("+c.P.Pos(r.Pos())+")")
@@ -40,14 +47,17 @@ func init() {
 	})
 	register(&Property{
 		ID:    "C11",
-		Rules: []string{"C11-R1", "C11-R2", "C11-R3", "C11-R4", "C11-R5", "C11-R6", "C01-R4"},
+		Rules: []string{"C11-R1", "C11-R2", "C11-R3", "C11-R4", "C11-R5", "C11-R6", "C11-R7", "C01-R4", "C11-R8", "C16-R3"},
 		Explain: "Decides termination and the guard of the depth limit for every recursive resolver: C11-R1 the depth parameter grows by exactly 1 per reference; " +
 			"C11-R2 the guard table over ord(level,max) x exists: level>=max fails first whatever exists, an undefined name below the limit is accepted untouched, a defined recipe below the limit returns nil only after storing its flattened list; " +
 			"C11-R4 the loops that drive resolution do not depend on map order; C11-R5 entry points start every walk at depth 0 and hand the configured limit to the walk untransformed (a field or parameter read, no clamp, offset or substitute); " +
 			"C11-R3 the limit N the user gives (--maxdepth, HR_MAXDEPTH, configuration file) is the one stored for the resolver: it is overwritten from the flag only when the flag is set or nothing was configured, and a set flag always wins; C11-R6 if --maxdepth is ever declared on a command as well as on the application it is read through the context lineage, so the global flag and HR_MAXDEPTH still reach the resolver; " +
-			"C01-R4 (shared) merging keeps every ingredient of an expanded recipe whatever its amount, so how deep a later walk goes does not depend on values being zero.",
+			"C11-R7 the maximum-depth error made inside package resolver reaches the result of every function it passes through, up to the command (must-flow: on every path on which a call that can return it fails, the caller returns a non-nil error), so a book that is too deep or cyclic is never reported as success; " +
+			"C01-R4 (shared) merging keeps every ingredient of an expanded recipe whatever its amount, so how deep a later walk goes does not depend on values being zero. C11-R8 a command's configuration takes its resolver section from the loaded options (or an adjusted copy), never from a fresh default; C16-R3 (shared) the environment variable documented for the limit is the one the flag declares.",
 		NotDecided: "that the limit trips exactly when some chain has N or more references independently of the order of visits (recipes are flattened in place, so a later walk is shallower: defect D10 in DESIGN.md, out of reach for a necessary-condition rule); provenance of the default bound (C16-R5)",
 		Run: func(c *core.Ctx) {
+			ruleSettingTables(c, "C16-R3") // the limit documented for the environment is the one declared
+			ruleConfigLiterals(c, "C11-R8", func(t types.Type) bool { return strings.HasSuffix(t.String(), "resolver.Config") })
 			rs := recursiveResolvers(c.P)
 			for _, r := range rs {
 				c.Universe("recursive resolvers", core.FuncName(r)+" ("+c.P.Pos(r.Pos())+")")
@@ -60,6 +70,17 @@ func init() {
 			ruleResolverEntries(c, "C11-R5", true, true)
 			ruleGuardedOverridesOnly(c, "C11-R3", "MaxDepth")
 			ruleLineage(c, "C11-R6", func(n string) bool { return n == "maxdepth" })
+			// the error of the limit: created inside package resolver, it must reach the command's result
+			runErrorFlow(c, "C11-R7", func(cal *ssa.Function, ci ssa.CallInstruction) (bool, string) {
+				in, ok := ci.(ssa.Instruction)
+				if cal == nil || !ok || in.Parent() == nil || core.FnPkgPath(in.Parent()) != resolverPkg {
+					return false, ""
+				}
+				if cal.String() == "fmt.Errorf" || cal.String() == "errors.New" {
+					return true, "the depth limit was reached"
+				}
+				return false, ""
+			})
 			if fn := c.P.LookupMethod(core.LibPath, "Elements", "SumMerge"); requireAnchor(c, "C01-R4", "Elements.SumMerge", fn != nil) {
 				ruleMergeByName(c, "C01-R4", fn, true)
 			}
